@@ -429,6 +429,7 @@ func verifHosts(l *roundRobinLoadBalancer) []*Host { return l.hosts.Load().([]*H
 //@   local $crKey string = ""
 //@   local $crStoredUnderKey bool = true
 //@   local $crVersion primitive.ProtocolVersion = 0
+//@   local $crOwned bool = true
 //@   requires c != nil && c.pending != nil && c.codec != nil && c.conn != nil && c.closingMu != nil && nolocks() && !$arrived
 //@   after frame.RawCodec.DecodeRawFrame#1 set $crDecoded = (result1 == nil); $crStream = result0.Header.StreamId; $crOpCode = result0.Header.OpCode; $crVersion = result0.Header.Version; $arrived = (result1 == nil); $arrivedStream = result0.Header.StreamId
 //@   before proxycore.ClientConn.maybeCachePrepared#* set $crCached = true
@@ -437,7 +438,7 @@ func verifHosts(l *roundRobinLoadBalancer) []*Host { return l.hosts.Load().([]*H
 //@   before proxycore.PreparedCache.Store#* set $crStoredUnderKey = $crStoredUnderKey && arg0 == $crKey
 //@   before proxycore.ClientConn.maybePrepareAndExecute#1 set $crExamined = true
 //@   after proxycore.ClientConn.maybePrepareAndExecute#1 set $crReprepared = result
-//@   before proxycore.Request.OnResult#1 set $crDelivered = true; $crTarget = valof(recv); $crOrderOK = ($crOpCode != primitive.OpCodeResult || $crCached || c.preparedCache == nil)
+//@   before proxycore.Request.OnResult#1 set $crOwned = fresh(arg0) && (len(arg0.Body) == 0 || fresh(arg0.Body)); $crDelivered = true; $crTarget = valof(recv); $crOrderOK = ($crOpCode != primitive.OpCodeResult || $crCached || c.preparedCache == nil)
 // C08: a RESULT (possibly the answer to a PREPARE) is looked at by the prepared cache before the request - and
 // through it the client - learns about it; otherwise an EXECUTE of the new id can overtake the cache entry
 // and be answered UNPREPARED by a host that was never prepared
@@ -449,6 +450,10 @@ func verifHosts(l *roundRobinLoadBalancer) []*Host { return l.hosts.Load().([]*H
 //@   ensures events-not-delivered: $crDecoded && $crOpCode == primitive.OpCodeEvent ==> !$crDelivered
 // C01 "never none": a response to a pending request is handed to that request - or has started its re-preparation
 //@   ensures errors-examined-before-delivery: $crDelivered && $crOpCode == primitive.OpCodeError && c.preparedCache != nil ==> $crExamined [C08]
+// C03 (response path): the frame handed to the request - which queues it for the client's writer goroutine - and
+// its body array were made while this response was being received; a body aliasing a buffer of the connection
+// would be overwritten by the next response before it is written out
+//@   ensures delivered-frame-owns-its-body: $crOwned [C03]
 //@   ensures cached-under-the-connection-key: $crStoredUnderKey [C08]
 //@   ensures delivered-or-reprepared: $crDecoded && $crOpCode != primitive.OpCodeEvent && 0 <= $crStream && $crStream < MaxStreams && old(c.pending.$has)[$crStream] ==> $crDelivered || $crReprepared [C01]
 //@   modifies *, c.pending.$has, c.pending.$tag, c.pending.$val, $arrived, $arrivedStream
